@@ -2,6 +2,8 @@ package vmc
 
 import (
 	"fmt"
+	"os"
+	"strings"
 	"unsafe"
 )
 
@@ -15,6 +17,8 @@ import (
 // Every instrumented access (struct fields of the rewritten packages, package variables,
 // map operations - inserted by mcrewrite -race) is checked against the last write and the
 // reads since then of the same address.
+
+var debugSite = os.Getenv("VMC_RACE_DEBUG_SITE")
 
 // RaceOn enables the tracker (set by the C15 driver before RunOnce).
 var RaceOn bool
@@ -60,6 +64,17 @@ type shadow struct {
 	reads []access
 }
 
+// rangeRec is one recorded access to the bytes [lo, hi) (struct fields, package variables and
+// slice / array elements all live in one byte-addressed shadow, so that a copy into a buffer
+// conflicts with an indexed read of it).
+type rangeRec struct {
+	lo, hi uintptr
+	acc    access
+	write  bool
+}
+
+const lineShift = 6 // 64-byte buckets
+
 // RaceReport describes one data race.
 type RaceReport struct {
 	Addr   string
@@ -78,54 +93,77 @@ func (r RaceReport) String() string {
 	return fmt.Sprintf("data race: %s at %s by T%d and %s at %s by T%d are not ordered by happens-before", k(r.AW), r.A, r.TA, k(r.BW), r.B, r.TB)
 }
 
-func (s *Sched) raceAccess(p unsafe.Pointer, keep any, write bool, site string) {
-	if !RaceOn || s == nil || s.aborting || s.cur == nil {
+// raceRange records an access to [p, p+size) and reports conflicts with earlier accesses to
+// overlapping bytes by other threads that are not ordered before it.
+func (s *Sched) raceRange(p unsafe.Pointer, size uintptr, keep any, write bool, site string) {
+	if !RaceOn || s == nil || s.aborting || s.cur == nil || size == 0 || p == nil {
 		return
 	}
 	t := s.cur
 	if len(t.rvc) <= t.ID {
 		t.tick()
 	}
-	if s.shadow == nil {
-		s.shadow = map[unsafe.Pointer]*shadow{}
+	if s.ranges == nil {
+		s.ranges = map[uintptr][]rangeRec{}
 	}
-	sh := s.shadow[p]
-	if sh == nil {
-		sh = &shadow{keep: keep}
-		s.shadow[p] = sh
-	}
-	report := func(prev access, prevWrite bool) {
-		if len(s.Races) < 20 {
-			s.Races = append(s.Races, RaceReport{Addr: fmt.Sprintf("%p", p), A: prev.site, AW: prevWrite, TA: prev.tid, B: site, BW: write, TB: t.ID})
-		}
-	}
-	if sh.hasW && sh.write.tid != t.ID && !hbBefore(sh.write.tid, sh.write.c, t.rvc) {
-		report(sh.write, true)
-	}
+	lo := uintptr(p)
+	hi := lo + size
 	me := access{t.ID, t.rvc[t.ID], site}
-	if write {
-		for _, r := range sh.reads {
-			if r.tid != t.ID && !hbBefore(r.tid, r.c, t.rvc) {
-				report(r, false)
+	if debugSite != "" && strings.Contains(site, debugSite) {
+		if f, err := os.OpenFile("/tmp/vmc-race-debug.log", os.O_APPEND|os.O_CREATE|os.O_WRONLY, 0o644); err == nil {
+			fmt.Fprintf(f, "RACEDBG T%d %s write=%v [%#x,%#x) clock=%v\n", t.ID, site, write, lo, hi, t.rvc)
+			f.Close()
+		}
+	}
+	if !s.rangeKept[lo] {
+		// keeps the object alive until the end of the execution: its address is not reused
+		if s.rangeKept == nil {
+			s.rangeKept = map[uintptr]bool{}
+		}
+		s.rangeKept[lo] = true
+		s.rangeKeep = append(s.rangeKeep, keep)
+	}
+	reported := false
+	for line := lo >> lineShift; line <= (hi-1)>>lineShift; line++ {
+		recs := s.ranges[line]
+		out := recs[:0]
+		// the part of the access that falls into this bucket
+		blo, bhi := lo, hi
+		if b := line << lineShift; blo < b {
+			blo = b
+		}
+		if e := (line + 1) << lineShift; bhi > e {
+			bhi = e
+		}
+		for _, r := range recs {
+			overlap := r.lo < bhi && blo < r.hi
+			if overlap && (write || r.write) && r.acc.tid != t.ID && !hbBefore(r.acc.tid, r.acc.c, t.rvc) && !reported {
+				if len(s.Races) < 20 {
+					s.Races = append(s.Races, RaceReport{Addr: fmt.Sprintf("%#x", blo), A: r.acc.site, AW: r.write, TA: r.acc.tid, B: site, BW: write, TB: t.ID})
+				}
+				reported = true
 			}
+			// a record is superseded when the new access covers it and either comes from the
+			// same thread with at least the same strength, or is a write ordered after it
+			covered := blo <= r.lo && r.hi <= bhi
+			if covered && ((r.acc.tid == t.ID && (write || !r.write)) || (write && hbBefore(r.acc.tid, r.acc.c, t.rvc))) {
+				continue
+			}
+			out = append(out, r)
 		}
-		sh.write, sh.hasW = me, true
-		sh.reads = sh.reads[:0]
-		return
+		s.ranges[line] = append(out, rangeRec{blo, bhi, me, write})
 	}
-	for i := range sh.reads {
-		if sh.reads[i].tid == t.ID {
-			sh.reads[i] = me
-			return
-		}
-	}
-	sh.reads = append(sh.reads, me)
+}
+
+func (s *Sched) raceAccess(p unsafe.Pointer, keep any, write bool, site string) {
+	// (map headers: keyed by the map pointer, one byte wide)
+	s.raceRange(p, 1, keep, write, site)
 }
 
 // R records a read of *p and returns p.
 func R[T any](p *T, site string) *T {
 	if RaceOn {
-		S.raceAccess(unsafe.Pointer(p), p, false, site)
+		S.raceRange(unsafe.Pointer(p), unsafe.Sizeof(*p), p, false, site)
 	}
 	return p
 }
@@ -133,9 +171,109 @@ func R[T any](p *T, site string) *T {
 // W records a write of *p and returns p.
 func W[T any](p *T, site string) *T {
 	if RaceOn {
-		S.raceAccess(unsafe.Pointer(p), p, true, site)
+		S.raceRange(unsafe.Pointer(p), unsafe.Sizeof(*p), p, true, site)
 	}
 	return p
+}
+
+func sliceRange[T any](s []T) (unsafe.Pointer, uintptr) {
+	if len(s) == 0 {
+		return nil, 0
+	}
+	return unsafe.Pointer(&s[0]), uintptr(len(s)) * unsafe.Sizeof(s[0])
+}
+
+// RS records a read of all elements of s and returns s.
+func RS[S ~[]T, T any](s S, site string) S {
+	if RaceOn {
+		p, n := sliceRange([]T(s))
+		S_().raceRange(p, n, s, false, site)
+	}
+	return s
+}
+
+// WS records a write of all elements of s and returns s.
+func WS[S ~[]T, T any](s S, site string) S {
+	if RaceOn {
+		p, n := sliceRange([]T(s))
+		S_().raceRange(p, n, s, true, site)
+	}
+	return s
+}
+
+// RSn / WSn record a read / write of the first n elements of s (fixed-size accessors).
+func RSn[D ~[]T, T any](s D, n int, site string) D {
+	if RaceOn && len(s) >= n {
+		RS(s[:n], site)
+	}
+	return s
+}
+
+// WSn records a write of the first n elements of s.
+func WSn[D ~[]T, T any](s D, n int, site string) D {
+	if RaceOn && len(s) >= n {
+		WS(s[:n], site)
+	}
+	return s
+}
+
+// S_ returns the current scheduler (helper for generic functions whose type parameter is named S).
+func S_() *Sched { return S }
+
+// Copy is the builtin copy: writes the copied prefix of dst, reads that of src.
+func Copy[D ~[]T, T any](dst D, src []T, site string) int {
+	n := copy(dst, src)
+	if RaceOn && n > 0 {
+		RS(src[:n], site)
+		WS(dst[:n], site)
+	}
+	return n
+}
+
+// CopyStr is copy(dst, string).
+func CopyStr[D ~[]byte](dst D, src string, site string) int {
+	n := copy(dst, src)
+	if RaceOn && n > 0 {
+		WS(dst[:n], site)
+	}
+	return n
+}
+
+// Clear is the builtin clear on a slice.
+func Clear[D ~[]T, T any](s D, site string) {
+	clear(s)
+	if RaceOn {
+		WS(s, site)
+	}
+}
+
+// Append is the builtin append: when the capacity suffices the new elements are written into
+// the shared backing array behind the old length, otherwise the old elements are read.
+func Append[D ~[]T, T any](site string, s D, e ...T) D {
+	old := len(s)
+	r := append(s, e...)
+	if RaceOn && len(e) > 0 {
+		if cap(s) >= old+len(e) {
+			WS(r[old:], site)
+		} else {
+			RS(s, site)
+		}
+	}
+	return r
+}
+
+// AppendStr is append(s, str...).
+func AppendStr[D ~[]byte](site string, s D, e string) D {
+	old := len(s)
+	r := append(s, e...)
+	if RaceOn && len(e) > 0 {
+		if cap(s) >= old+len(e) {
+			WS(r[old:], site)
+		} else {
+			RS(s, site)
+		}
+	}
+	return r
 }
 
 func mapPtr[M any](m M) unsafe.Pointer { return *(*unsafe.Pointer)(unsafe.Pointer(&m)) }
